@@ -399,8 +399,13 @@ enum WriterOp {
     Index,
 }
 
-async fn run_writer(a: &Actor, uri: &str, op: WriterOp, spec: &TableSpec, seed: u64) -> Result<u64, String> {
-    let mut ds = a.open(uri).await.map_err(|e| e.to_string())?;
+async fn run_writer(a: &Actor, uri: &str, op: WriterOp, spec: &TableSpec, seed: u64, at: Option<u64>) -> Result<u64, String> {
+    let mut ds = match at {
+        // a writer that still works from an old version (its files may only be kept alive by manifests
+        // the cleanup is about to remove)
+        Some(v) => a.open_version(uri, v).await.map_err(|e| e.to_string())?,
+        None => a.open(uri).await.map_err(|e| e.to_string())?,
+    };
     match op {
         WriterOp::Append => {
             let mut rng = Rng::new(seed);
@@ -477,6 +482,17 @@ async fn race_case(seed: u64, case: u64, thorough: bool, report: &Report) {
     if rng.bool() {
         let _ = ds.delete("id % 7 = 2").await;
     }
+    // half of the scenarios: the latest version is a compaction, and the writer starts from the
+    // version before it, whose files only old manifests reference
+    let stale_writer = rng.bool();
+    let mut writer_at = None;
+    if stale_writer {
+        let before = ds.manifest().version;
+        let _ = compact_files(&mut ds, CompactionOptions { target_rows_per_fragment: 1000, materialize_deletions_threshold: 0.0, ..Default::default() }, None).await;
+        if ds.manifest().version > before {
+            writer_at = Some(before);
+        }
+    }
     let pre_latest = ds.manifest().version;
     let pre_ids: BTreeSet<i64> = match scan_rows(&ds, &ScanOpts::default()).await {
         Ok((n, rows)) => {
@@ -491,8 +507,9 @@ async fn race_case(seed: u64, case: u64, thorough: bool, report: &Report) {
     let m_calls = {
         let w = World::from_snapshot(&snap).await;
         let a = Actor::new(w.new_actor(2));
-        let r = run_writer(&a, uri, op, &spec, seed).await;
+        let r = run_writer(&a, uri, op, &spec, seed, writer_at).await;
         if r.is_err() {
+            // e.g. a stale compaction that conflicts even without a cleaner: not a scenario
             report.count("race_writer_dry_run_failed", 1);
             return;
         }
@@ -533,7 +550,7 @@ async fn race_case(seed: u64, case: u64, thorough: bool, report: &Report) {
         let s2 = sched.clone();
         let (wr, spec2) = (writer.clone(), spec.clone());
         let hw = tokio::spawn(async move {
-            let r = run_writer(&wr, uri, op, &spec2, seed).await;
+            let r = run_writer(&wr, uri, op, &spec2, seed, writer_at).await;
             s2.end(2);
             r
         });
@@ -564,7 +581,7 @@ async fn race_case(seed: u64, case: u64, thorough: bool, report: &Report) {
         report.count("race_delete_events_inspected", deleted.len() as u64);
         let both_active = out.released.iter().skip(k as usize).any(|r| r.actor == 1) && out.released.iter().skip(k as usize).any(|r| r.actor == 2);
         let ctx = json!({"seed": seed, "case": case, "writer_op": format!("{op:?}"), "parked_at_call": k, "writer_calls_alone": m_calls,
-                         "stable_row_ids": stable, "cleanup_result": format!("{rc:?}"), "writer_result": format!("{rw:?}"),
+                         "stable_row_ids": stable, "writer_starts_at_version": writer_at, "cleanup_result": format!("{rc:?}"), "writer_result": format!("{rw:?}"),
                          "cleanup_deleted": deleted.iter().take(20).collect::<Vec<_>>(), "schedule": out.brief(60)});
         // ---- verdict
         let reader = Actor::new(w.new_actor(0));
@@ -631,7 +648,10 @@ async fn race_case(seed: u64, case: u64, thorough: bool, report: &Report) {
             }
         }
         let _ = pre_latest;
-        let sig = vmon::prng::fnv_str(&format!("race:{op:?}:{stable}:{k}:{}", rw.is_ok()));
+        let sig = vmon::prng::fnv_str(&format!("race:{op:?}:{stable}:{writer_at:?}:{k}:{}", rw.is_ok()));
+        if writer_at.is_some() {
+            report.count("race_schedules_with_stale_writer", 1);
+        }
         report.case(if both_active { Some(sig) } else { None });
         if report.want_sample() && both_active && report.counter("samples_leg_b") < 3 {
             report.count("samples_leg_b", 1);
